@@ -135,6 +135,9 @@ class TLCResult:
 
 def run(wd, root, workers=16, env=None, timeout=3600, coverage=False, simulate=None,
         depth=None, seed=None, extra=(), heap="8g"):
+    if workers == 16 and os.environ.get("VERIF_TLC_WORKERS"):
+        workers = int(os.environ["VERIF_TLC_WORKERS"])
+        heap = "4g"
     cmd = ["java", "-XX:+UseParallelGC", "-Xmx" + heap, "-cp", JAR, "tlc2.TLC",
            "-workers", str(workers), "-metadir", os.path.join(wd, "states"),
            "-noGenerateSpecTE", "-nowarning", "-config", root + ".cfg"]
